@@ -15,7 +15,7 @@ BOUNDS = {
 OUTSIDE = "layouts rejected by validate(); explicit size smaller than the image's own binary (export then returns more bytes than len() - precondition); 'rand' and 'inc' patterns; images above the stated sizes"
 STUBS = ["BinaryImage.__str__ -> constant"]
 MUST_REACH = ["export\\..*", "join\\..*"]
-OPTS = {"quick": {"case_timeout_s": 250, "max_paths": 60000}, "thorough": {"case_timeout_s": 2400, "max_paths": 400000}}
+OPTS = {"quick": {"case_timeout_s": 600, "max_paths": 60000}, "thorough": {"case_timeout_s": 2400, "max_paths": 400000}}
 
 PATTERNS = {"none": None, "zeros": "zeros", "ones": "ones", "num": "0xA55A"}
 
